@@ -173,7 +173,9 @@ Section KeyModel.
 
   (* _serialize_obj *)
   Fixpoint ser_arg (a : arg) : ser :=
-    match k_serialize_obj (is_callable a) (has_name a) (is_dict a) (is_seq a) (is_str a) (is_dm a) with
+    (* first answer: isinstance(obj, CallableValue) -- the numbers returned by column statistics are plain numbers of the
+       argument datatype (AFloat / AInt), never callables *)
+    match k_serialize_obj false (is_callable a) (has_name a) (is_dict a) (is_seq a) (is_str a) (is_dm a) with
     | BName => match a with AFun (Some n) => SStr (tx n) | _ => unmodelled end
     | BLit s => SStr (tx s)
     | BKwargs =>
